@@ -218,7 +218,9 @@ func genCase(seed int64, idx int) Case {
 			"{" + rep("... on Query{") + "int" + rep("}") + "}",
 			rep("{"), rep("("), rep("["), "{int" + rep("("), "{args(l:" + rep("["), "{args(in:" + rep("{a:"),
 			"{int " + rep("@tag") + "}", "{args(s:\"" + srep("a"), "{args(s:\"\"\"" + srep("\n \\\"\"\"") + "\"\"\")}",
-			"{" + rep(",") + "int}", "{int" + rep("#\n") + "}", rep("fragment F on Query{int}"), rep("query{int}"), rep("query Q{int}"),
+			"{" + rep(",") + "int}", "{int" + rep("#\n") + "}",
+			// a flat run of up to 1.2 million ignored tokens: skipping them must not cost stack (64 MiB limit in the workers)
+			"{" + strings.Repeat(hx.Pick(r, []string{",", " ", "\n", "\t", "\r", ", \n"}), d*30) + "int}", "{int}" + strings.Repeat(hx.Pick(r, []string{",", " ", "\n"}), d*30), rep("fragment F on Query{int}"), rep("query{int}"), rep("query Q{int}"),
 			func() string { // fragment chain, each reached once
 				var sb strings.Builder
 				// validating a chain of n fragments is polynomial but steep (n=2000: ~10 s; cycle search and
